@@ -892,7 +892,7 @@ def custom_extension(h=None):
 
 def lowerings_ok(ext_doc, h, ctx):
     """every lowering HUGR inside an extension document is the wire-format document of h (schema-valid)"""
-    own = doc_view(json.loads(h.to_json()))
+    own = doc_canon(doc_view(json.loads(h.to_json())))
     n = 0
     for od in ext_doc.get("operations", {}).values():
         for lf in od.get("lower_funcs", []):
@@ -902,8 +902,10 @@ def lowerings_ok(ext_doc, h, ctx):
                 return False
             if schema_server(ctx).check("SerialHugr", json.dumps(d)) != "OK":
                 return False
-            if doc_view(d) != own or d.get("version") != "live":
+            if doc_canon(doc_view(d)) != own or d.get("version") != "live":
                 return False
+            if d.get("encoder") is not None:
+                drift(ctx, "nested_documents_with_encoder_string")
     return n == 1
 
 
@@ -916,6 +918,118 @@ def doc_view(doc):
     """a document as plain data: nodes [(op json without parent, parent)], edges, metadata"""
     return {"nodes": [[opcode(n), n["parent"]] for n in doc["nodes"]],
             "edges": doc["edges"], "metadata": doc.get("metadata")}
+
+
+def doc_canon(v):
+    """a document view up to what neither C02 nor C03 fixes: the order of the `edges` array, and the writing of the
+    metadata table (a missing table, a table of nulls, null and {} entries all read as {}); None stays None"""
+    if v is None:
+        return None
+    md = v.get("metadata")
+    md = [m or None for m in md] if md else []
+    if not any(md):
+        md = None
+    return {"nodes": v["nodes"], "edges": sorted(v["edges"], key=json.dumps), "metadata": md}
+
+
+def listing_order(a, doc):
+    """The order in which the document `doc` (doc_view) lists the live nodes of the dumped HUGR `a`: document position k
+    holds node L[k].  For C03 this order is the writer's choice (C02 licenses only increasing index order); it is FOUND
+    here and CHECKED in Coq (run/C02Run.v nodes_listed_in_b, run/C03Run.v M_to_serial_in): a wrong answer can only make
+    the check fail.  Candidates: increasing index; then the matching along the hierarchy -- the root at the position
+    that names itself as parent, the children of a matched node against the document nodes naming its position as
+    parent, in order (by encoded operation when the two orders disagree).  The first candidate under which every
+    document node carries the operation and the parent position of its node wins; else increasing index."""
+    nodes = {n["idx"]: n for n in a["nodes"]}
+    index_order = [n["idx"] for n in a["nodes"]]
+    dn = doc["nodes"]
+
+    def fits(L):
+        if len(L) != len(dn) or sorted(L) != sorted(nodes):
+            return False
+        pos = {i: k for k, i in enumerate(L)}
+        for k, i in enumerate(L):
+            n = nodes[i]
+            par = i if n["parent"] is None else n["parent"]
+            if par not in pos or dn[k] != [opcode(n["op"]), pos[par]]:
+                return False
+        return True
+
+    if fits(index_order):
+        return index_order
+    if len(dn) == len(nodes) and a["root"] in nodes:
+        kids = {}
+        roots = []
+        for k, (_, p) in enumerate(dn):
+            if p == k:
+                roots.append(k)
+            else:
+                kids.setdefault(p, []).append(k)
+        if len(roots) == 1:
+            L = {roots[0]: a["root"]}
+            queue = [(roots[0], a["root"])]
+            ok = True
+            while queue and ok:
+                k, i = queue.pop(0)
+                dk, hk = kids.get(k, []), list(nodes[i]["children"])
+                if len(dk) != len(hk) or any(c not in nodes for c in hk):
+                    ok = False
+                    break
+                if [dn[x][0] for x in dk] != [opcode(nodes[c]["op"]) for c in hk]:
+                    # siblings listed in another order than the children list: match them by encoded operation
+                    free, pairs = list(dk), []
+                    for c in hk:
+                        x = next((x for x in free if dn[x][0] == opcode(nodes[c]["op"])), None)
+                        if x is None:
+                            ok = False
+                            break
+                        free.remove(x)
+                        pairs.append((x, c))
+                else:
+                    pairs = list(zip(dk, hk))
+                for x, c in pairs:
+                    L[x] = c
+                    queue.append((x, c))
+            if ok and len(L) == len(dn):
+                cand = [L[k] for k in range(len(dn))]
+                if fits(cand):
+                    return cand
+    return index_order
+
+
+def drift(ctx, key, n=1):
+    """DIAGNOSTICS, never verdicts: how often the implementation's unconstrained choices differ from the ones the
+    Gallina model of the code as it stood bakes in (evidence: input_distribution / stats model_drift)"""
+    if ctx is None:
+        return
+    d = ctx.stats.setdefault("model_drift_diagnostics_not_verdicts", {})
+    d[key] = d.get(key, 0) + n
+
+
+def note_drift(ctx, a, doc, order, raw_doc=None):
+    drift(ctx, "documents_examined")
+    if order != [n["idx"] for n in a["nodes"]]:
+        drift(ctx, "documents_listing_nodes_out_of_index_order")
+    pos = {i: k for k, i in enumerate(order)}
+    try:
+        if [(pos[s], pos[d]) for s, _, d, _ in a["links"]] != [(e[0][0], e[1][0]) for e in doc["edges"]]:
+            drift(ctx, "documents_with_edges_not_in_links_order")
+    except KeyError:
+        pass
+    if doc.get("metadata") is None:
+        drift(ctx, "documents_with_null_metadata_table")
+    if raw_doc is not None and not isinstance(raw_doc.get("encoder"), str):
+        drift(ctx, "to_json_documents_without_encoder_string")
+
+
+def note_count_drift(ctx, b):
+    """recorded port counts of a LOADED HUGR: the loader of the code as it stood knows only the linked ports"""
+    hi = {}
+    for s, so, d, do in b["links"]:
+        hi[("o", s)] = max(hi.get(("o", s), 0), so + 1)
+        hi[("i", d)] = max(hi.get(("i", d), 0), do + 1)
+    if any(n["nout"] != hi.get(("o", n["idx"]), 0) or n["nin"] != hi.get(("i", n["idx"]), 0) for n in b["nodes"]):
+        drift(ctx, "loaded_hugrs_whose_recorded_port_counts_are_not_highest_linked_port_plus_one")
 
 
 def observe_hugr(h, ctx, schema=True):
@@ -938,10 +1052,19 @@ def observe_hugr(h, ctx, schema=True):
     o["doc"] = doc_view(doc)
     o["header"] = [doc.get("version"), doc.get("encoder")]
     try:
+        o["ord"] = listing_order(o["a"], o["doc"])
+        note_drift(ctx, o["a"], o["doc"], o["ord"], doc)
+    except Exception:       # a malformed document: the checks in Coq judge it
+        o.pop("ord", None)
+    try:
         s = h._to_serial()
         s.to_json()
         s2 = SerialHugr.load_json(json.loads(j))
-        o["pyd"] = bool(s2.model_dump_json() == j)      # validate(dump(s)) dumps to the same text
+        # validate(dump(s)) dumps to the same document, "compared as JSON values" (identity of the TEXT is a diagnostic)
+        j2 = s2.model_dump_json()
+        o["pyd"] = bool(json.loads(j2) == json.loads(j))
+        if j2 != j:
+            drift(ctx, "pydantic_redump_text_differs_from_to_json_text")
     except Exception as e:
         o["pyd"] = False
         o["pyd_error"] = type(e).__name__
@@ -965,6 +1088,11 @@ def observe_hugr(h, ctx, schema=True):
         doc2 = json.loads(j2)
         o["doc2"] = doc_view(doc2)
         o["json_same"] = bool(doc2 == doc)
+        try:
+            o["ord2"] = listing_order(o["b"], o["doc2"])
+            note_count_drift(ctx, o["b"])
+        except Exception:
+            o.pop("ord2", None)
     except Exception as e:
         o["doc2_error"] = type(e).__name__
         o["json_same"] = False
@@ -1122,10 +1250,15 @@ class Lit:
             dec = glist(self.opinfo(c) for c in codes)
         else:
             load, dec = "None", "[]"
-        header_ok = o.get("header", [None, None])[0] == "live" and isinstance(o.get("header", [None, None])[1], str)
+        # (the `encoder` member is optional in the wire format and named by neither property: whether it is a string is
+        # a diagnostic, see note_drift; `version` must be the published format's)
+        header_ok = o.get("header", [None, None])[0] == "live"
         same = o.get("json_same", False) and header_ok and o.get("ports_same", True) and "inconsistent" not in o
-        body = "(Rt %s %s %s %s %s %s %s)" % (h, doc, load, dec, gbool(same),
-                                             gbool(o.get("pyd", False)), gbool(o.get("schema", "OK") == "OK"))
+        ord1 = o.get("ord", [n["idx"] for n in o["a"]["nodes"]])
+        ord2 = o.get("ord2", [n["idx"] for n in o["b"]["nodes"]] if "b" in o else [])
+        body = "(Rt %s %s %s %s %s %s %s %s %s)" % (h, doc, load, dec, gbool(same),
+                                                   gbool(o.get("pyd", False)), gbool(o.get("schema", "OK") == "OK"),
+                                                   glist(str(i) for i in ord1), glist(str(i) for i in ord2))
         if "doc" in o:
             return "(let d : serialT := %s in %s)" % (self.serial(o["doc"]), body)
         return body
@@ -1402,7 +1535,16 @@ class RT(fw.Prop):
             doc = json.loads(j)
             mods = []
             same = isinstance(doc.get("modules"), list) and len(doc["modules"]) == len(hs)
-            same = same and jb[10:].decode("utf-8") == j
+            # (the envelope is C09's subject: C03 only wants the JSON payload, where it can be read, to be this document)
+            try:
+                payload = json.loads(jb[10:].decode("utf-8"))
+            except Exception:
+                payload = None
+                drift(ctx, "package_to_bytes_payload_not_json_after_10_byte_header")
+            if payload is not None:
+                same = same and payload == json.loads(j)
+                if jb[10:].decode("utf-8") != j:
+                    drift(ctx, "package_to_bytes_payload_text_differs_from_to_json_text")
             for h, md in zip(hs, doc.get("modules", [])):
                 o = observe_hugr(h, ctx, schema=False)
                 if "skip" in o:
@@ -1410,7 +1552,13 @@ class RT(fw.Prop):
                 o.pop("b", None)
                 o.pop("doc2", None)
                 own = o.get("doc")
-                same = same and own == doc_view(md) and md.get("version") == "live"
+                same = same and doc_canon(own) == doc_canon(doc_view(md)) and md.get("version") == "live"
+                if md.get("encoder") is not None:
+                    drift(ctx, "nested_documents_with_encoder_string")
+                # the typed document of a module is the module's entry in the Package document
+                if own is not None and isinstance(md, dict) and "nodes" in md and "edges" in md:
+                    o["doc"] = doc_view(md)
+                    o["ord"] = listing_order(o["a"], o["doc"])
                 mods.append(o)
             if exts and hs:
                 same = same and len(doc.get("extensions", [])) == 1 and lowerings_ok(doc["extensions"][0], hs[0], ctx)
